@@ -657,3 +657,10 @@ pub fn compress_kmers_no_exts<K: Kmer, D: Clone + Debug, S: CompressionSpec<D>>(
     let index = BoomHashMap2::new(keys, exts, data);
     CompressFromHash::<K, D, S>::compress_kmers(stranded, spec, &index)
 }
+
+// Verification hook (guarded, see src/lib.rs): contracts that need this module's private items.
+#[cfg(any(kani, debruijn_verif))]
+#[allow(dead_code, unused_imports, unused_macros, unused_variables, non_snake_case)]
+pub mod verif {
+    include!(concat!(env!("DEBRUIJN_VERIF_DIR"), "/kani/m_compression.rs"));
+}
